@@ -9,6 +9,7 @@
             broken proof / correspondence and no failing input => VIOLATION ... no-failing-input-found
 """
 import json
+import re
 import os
 import sys
 import time
@@ -144,6 +145,18 @@ def run(spec, tier, seed, replay=None):
                         problems.append({"kind": "axioms", "what": "theorem depends on axioms: " + ", ".join(unexpected)})
             if not assumptions_txt:
                 problems.append({"kind": "assumptions", "what": "no Print Assumptions output found in " + spec.prop_file})
+        coqchk_txt = None
+        if ok_proof and tier == "thorough":
+            # independent re-check of the compiled property module and everything it depends on
+            mod = "AM." + spec.prop_file[:-2].replace("/", ".")
+            rc, out = vlib.sh(["coqchk", "-silent", "-o", "-R", ".", "AM", mod], cwd=vlib.COQ, timeout=3000)
+            m = re.search(r"\* Axioms:(.*?)\n\s*\n\* ", out, re.S)
+            axioms = [a.strip() for a in (m.group(1).split("\n") if m else []) if a.strip() and a.strip() != "<none>"]
+            coqchk_txt = "coqchk -silent -o %s: rc=%s, axioms: %s" % (mod, rc, ", ".join(axioms) or "<none>")
+            if rc != 0 or m is None:
+                problems.append({"kind": "coqchk", "what": "coqchk does not accept the compiled development", "log": out[-2000:]})
+            elif [a for a in axioms if a.split(".")[-1] not in ALLOWED_AXIOMS]:
+                problems.append({"kind": "axioms", "what": "coqchk reports axioms: " + ", ".join(axioms)})
 
     # ---- 4-5: harness + correspondence
     summ = None
@@ -261,6 +274,7 @@ def run(spec, tier, seed, replay=None):
         "discharged": discharged,
         "checker_cmd": "cd /verif/coq && coq_makefile -f _CoqProject -o Makefile && make %s" % prop_vo,
         "trusted_base": BASE_TRUSTED + ["Print Assumptions (%s): %s" % (spec.prop_file, " | ".join(assumptions_txt) or "n/a")]
+                        + ([coqchk_txt] if coqchk_txt else [])
                         + ["modelled, tied by correspondence rather than proof: " + m for m in spec.modelled],
         "evaluations": sum(x.get("evaluations", 0) for x in harness_runs),
         "distinct_nontrivial": sum(x.get("distinct_nontrivial", 0) for x in harness_runs[:1]),
